@@ -117,6 +117,23 @@ def read_all(path, masked=False):
             return (ds.read(), ds.dataset_mask().astype(bool), ds.profile, ds.tags(), ds.descriptions)
 
 
+def noisy_edges(family, ps, pr):
+    """True when GDAL's pixel<->map arithmetic is inexact for this pair of pixel sizes (see pair_geometry)"""
+    pow2 = lambda n: n > 0 and n & (n - 1) == 0
+    return family != 'dyadic' or not (pow2(ps) and pow2(pr))
+
+
+def offgrid_offset(rng, family, ps, pr):
+    """sub-pixel offset in [0, pr) of a source origin on the reference grid; where the arithmetic is inexact
+    (noisy_edges) the offset is no multiple of gcd(ps, pr), so that no source pixel edge coincides with a reference edge"""
+    import math
+    g = math.gcd(ps, pr)
+    sub = rng.randrange(0, pr)
+    if noisy_edges(family, ps, pr) and g > 1 and sub % g == 0:
+        sub += rng.randrange(1, g)
+    return sub
+
+
 def pair_geometry(rng, family='dyadic', proc='auto', max_src=40, margin=(0, 3), avoid_aligned_edges=False):
     """
     Random source grid inside a reference grid.  Returns (src Grid, ref Grid).
@@ -148,11 +165,12 @@ def pair_geometry(rng, family='dyadic', proc='auto', max_src=40, margin=(0, 3), 
     ml, mt = rng.randint(*margin), rng.randint(*margin)
     rx0 = big_origin + rng.randrange(-50, 50) * pr + 3
     rytop = big_origin // 2 + rng.randrange(-50, 50) * pr + 5
-    if avoid_aligned_edges and family != 'dyadic':
+    if avoid_aligned_edges and noisy_edges(family, ps, pr):
         # decimal geometry carries float noise: where a source pixel edge coincides with a reference pixel edge GDAL's
         # area weights of the neighbouring pixel are ~1e-10 instead of 0, which changes *validity* when the neighbour is
-        # the only valid contributor (GDAL behaviour, not homonim's).  Value oracles avoid exact edge coincidences there;
-        # the dyadic family (exact floats) covers them.
+        # the only valid contributor (GDAL behaviour, not homonim's).  Value oracles avoid exact edge coincidences there.
+        # The same holds in the dyadic family when a pixel size is not a power of two (GDAL multiplies by the inverse
+        # geotransform, and 1/1.5 is not exact); dyadic grids with power-of-two pixel sizes cover the coinciding edges.
         import math
         g = math.gcd(ps, pr)
         if g > 1:
